@@ -3,6 +3,7 @@
 //! usage: harness <property> [--seed N] [--tier quick|thorough] [--shard i/n] [--out FILE] [extra…]
 mod common;
 mod c13;
+mod c09;
 mod c10;
 mod c02;
 mod c11;
@@ -40,6 +41,7 @@ pub fn eval_request(req: &str) -> String {
     let r = guarded(std::panic::AssertUnwindSafe(|| {
         None // one line per property module
             .or_else(|| c13::eval(op, a))
+            .or_else(|| c09::eval(op, a))
             .or_else(|| c10::eval(op, a))
             .or_else(|| c02::eval(op, a))
             .or_else(|| c11::eval(op, a))
@@ -121,6 +123,7 @@ fn main() {
             }
         }
         "C13" => c13::gen(&mut ctx),
+        "C09" => c09::gen(&mut ctx),
         "C10" => c10::gen(&mut ctx),
         "C02" => c02::gen(&mut ctx),
         "C11" => c11::gen(&mut ctx),
